@@ -354,16 +354,19 @@ def _falls (stmts):
   return True
 
 class Inliner(object):
-  def __init__ (self, tree, modinv, external_def=None):
+  def __init__ (self, tree, modinv, external_def=None, external_name=None):
     self.tree = tree; self.inv = modinv; self.counter = 0; self.inlined = []; self.skip = set()
     self.external_def = external_def
     # a method defined by more than one class (here or in another file) may be reached by dynamic dispatch: `self.m()` in
     # the base class can run a subclass's m - such a call is never replaced by one of the bodies
     self.def_classes = {}
+    self.bases = {}
     for c in ast.walk(tree):
       if isinstance(c, ast.ClassDef):
+        self.bases[c.name] = set(b.id if isinstance(b, ast.Name) else (b.attr if isinstance(b, ast.Attribute) else '?') for b in c.bases)
         for s in c.body:
           if isinstance(s, FUNC): self.def_classes.setdefault(s.name, set()).add(c.name)
+    self.external_name = external_name
     self.helpers = {}      # ('method', cls, name) / ('func', name) -> FunctionDef   (new helpers only)
     self.methods_by_name = {}
     def visit (body, cls):
@@ -395,8 +398,19 @@ class Inliner(object):
     if isinstance(f, ast.Attribute):
       cands = self.methods_by_name.get(f.attr)
       if not cands: return None
-      if len(self.def_classes.get(f.attr, ())) > 1: return None
-      if self.external_def is not None and self.external_def(f.attr): return None
+      # related classes of this module that define the same method (overriding either way)
+      me = (cls or '').split('.')[-1]
+      def related (a, b, seen=None):
+        seen = seen or set()
+        if a == b: return True
+        if a in seen: return False
+        seen.add(a)
+        return any(related(x, b, seen) for x in self.bases.get(a, ()))
+      others = [c for c in self.def_classes.get(f.attr, ()) if c != me]
+      if any(related(c, me) or related(me, c) for c in others): return None
+      if me and '?' in self.bases.get(me, ()): return None
+      # a subclass in another file: only possible if that file mentions this class and defines a method of this name
+      if self.external_def is not None and self.external_def(f.attr) and (self.external_name is None or not me or self.external_name(me)): return None
       h = None
       for c, fn in cands:
         if c == cls: h = fn
@@ -1369,7 +1383,7 @@ def normalize_module (tree, modname, stats=None, external=None, external_def=Non
     inv = None          # nothing new in this module: analysed as written
   if inv is not None:
     info['constants'] = inline_new_constants(tree, inv)
-    il = Inliner(tree, inv, external_def)
+    il = Inliner(tree, inv, external_def, external)
     il.run(); info['inlined'] = il.inlined
     # a new helper all of whose uses in this module were inlined is no longer a unit of its own
     used = set(h for _, h in il.inlined)
@@ -1382,6 +1396,24 @@ def normalize_module (tree, modname, stats=None, external=None, external_def=Non
       return False
     def inside (helper):
       return set(id(x) for x in ast.walk(helper))
+    nodes_with_class = []; owner_of = {}; own_methods = {}
+    def collect (node, cls_):
+      for ch in ast.iter_child_nodes(node):
+        c2 = cls_
+        if isinstance(ch, ast.ClassDef):
+          c2 = ch.name
+          own_methods[ch.name] = set(x.name for x in ch.body if isinstance(x, FUNC))
+          for x in ch.body:
+            if isinstance(x, FUNC): owner_of[id(x)] = ch.name
+        nodes_with_class.append((ch, c2))
+        collect(ch, c2)
+    collect(tree, None)
+    def il_related (a, b, seen=None):
+      seen = seen or set()
+      if a == b: return True
+      if a in seen: return False
+      seen.add(a)
+      return any(il_related(x, b, seen) for x in il.bases.get(a, ()))
     def prune (body):
       out = []
       for s_ in body:
@@ -1389,10 +1421,22 @@ def normalize_module (tree, modname, stats=None, external=None, external_def=Non
         if isinstance(s_, FUNC) and s_.name in used and any(v is s_ for v in il.helpers.values()):
           ids = inside(s_)
           ref = False
-          for n in ast.walk(tree):
+          owner = owner_of.get(id(s_))
+          for n, ncls in nodes_with_class:
             if id(n) in ids: continue
-            if (isinstance(n, ast.Attribute) and n.attr == s_.name) or (isinstance(n, ast.Name) and n.id == s_.name and isinstance(n.ctx, ast.Load)): ref = True; break
-          if not ref and external is not None and external(s_.name): ref = True        # another file mentions it: stays a unit
+            if (isinstance(n, ast.Attribute) and n.attr == s_.name) or (isinstance(n, ast.Name) and n.id == s_.name and isinstance(n.ctx, ast.Load)):
+              # a reference from an unrelated class that has a method of this name of its own means that class's method
+              if owner is not None and ncls is not None and ncls != owner and s_.name in own_methods.get(ncls, ()) and not (il_related(ncls, owner) or il_related(owner, ncls)): continue
+              # `x.name(...)` on some other object, from code outside the owner's family, while an unrelated class of this module
+              # has a method of that name that is not new: that is the older method being called
+              if owner is not None and isinstance(n, ast.Attribute) and not (isinstance(n.value, ast.Name) and n.value.id in ('self', 'cls')) and (ncls is None or not (il_related(ncls, owner) or il_related(owner, ncls))) \
+                 and any(c_ != owner and s_.name in ms_ and ('%s.%s' % (c_, s_.name)) in inv and not (il_related(c_, owner) or il_related(owner, c_)) for c_, ms_ in own_methods.items()): continue
+              ref = True; break
+          if not ref and external is not None and external(s_.name):
+            # another file mentions the name: it stays a unit if that can mean *this* helper - the file also names the owner
+            # class (method) or this module (function)
+            who = owner if owner is not None else modname.split('.')[-1]
+            if external(who): ref = True
           if not ref:
             info.setdefault('dropped', []).append(s_.name); continue
         out.append(s_)
